@@ -56,10 +56,19 @@ func buildCase(phase string, i int) (c Case, key string, sample bool) {
 		c = Case{Prepop: "d", Pushes: []Push{{Kind: "archive", Title: "pkg", Entries: seqEntries(seq)}}}
 		return c, fmt.Sprint(seq), i%60000 == 1500
 	case "multi":
-		if n := exhCount(multiEnumLen()); i < n {
+		n := exhCount(multiEnumLen())
+		if i < n {
 			seq := exhSeq(i)
 			c = Case{Prepop: "d", Pushes: append([]Push{{Kind: "archive", Title: "pkg", Entries: seqEntries(seq)}}, followUps...)}
 			return c, fmt.Sprint("enum", seq), i == 31
+		}
+		if m := n + exhCount(2); i < m {
+			// the same enumeration on a working directory that does NOT exist when the store is
+			// created: the first push creates it (the archive brings pkg/d and pkg/d/keep itself)
+			seq := exhSeq(i - n)
+			es := append([]Entry{dir("pkg/d"), reg("pkg/d/keep")}, seqEntries(seq)...)
+			c = Case{Prepop: "absent", Pushes: append([]Push{{Kind: "archive", Title: "pkg", Entries: es}}, followUps...)}
+			return c, fmt.Sprint("enum-absent", seq), i == n+31
 		}
 		c = genRandCase(evidence.RandFor(seedFromEnv(), "c11-multi", i), true)
 		return c, c.pattern(), i%5000 == 3
@@ -118,10 +127,10 @@ func main() {
 	}
 	r := evidence.New("C11", "exploration")
 	r.Rule("case = (pre-population of the working directory ∈ {absent, empty, d, ds, sub, full}: files, directories, inside-pointing symlinks only; working directory at $ROOT/a/wd (siblings victim, outdir, wd.lock, wd-backup/, …) or at the end of a chain of otherwise empty directories $ROOT/e1/e2/wd; 1..n pushes, some made to fail while copying, into ONE default-options file.Store: " +
-		"tar+gzip blob marked for unpacking with a sequence of regular/dir/symlink/hard-link/fifo entries, named blob, or manifest that restores a titled layer); " +
+		"tar+gzip blob marked for unpacking with a sequence of regular/dir/symlink/hard-link/fifo entries (directories and files also with restrictive recorded modes 0555/0500/0300/0000), named blob, or manifest that restores a titled layer); " +
 		"phases: corpus (committed witnesses), fail (every title × {wrong digest, short, long, reader error} × {blob, archive} × {wd in a chain of empty directories, normal} × {empty, absent, d}: pushes that fail while copying), titles (all segment sequences over {.., ., \"\", x, in, up, wd, wd.lock, wd-backup} × {relative, $WD/…, $ROOT/a/…} × {blob, archive} × {pre-populated, not yet existing working directory}), " +
-		"exh (ALL sequences over the 25-entry reduced vocabulary up to length 3 quick / 4 thorough), rand (random and corpus-mutated sequences ≤ 10 entries over the full grammar), " +
-		"multi (all vocabulary sequences ≤ 2 quick / ≤ 3 thorough each followed by 13 follow-up pushes, then random multi-push cases); " +
+		"exh (ALL sequences over the 27-entry reduced vocabulary up to length 3 quick / 4 thorough), rand (random and corpus-mutated sequences ≤ 10 entries over the full grammar), " +
+		"multi (all vocabulary sequences ≤ 2 quick / ≤ 3 thorough each followed by 13 follow-up pushes, the ≤ 2 ones again on a not yet existing working directory, then random multi-push cases); " +
 		"oracle per push: snapshot of everything in the sandbox outside the working directory (type, permission bits, size+SHA-256, link target; TMPDIR may only gain oras_file_*) is unchanged, " +
 		"and a push with a lexically-outside title / entry name / link target returns an error; " +
 		"distinct = the sequence itself (corpus, titles, exh, enumerated multi) or the structural pattern (pre-population, push kinds, title class, per entry: type, name class, name reuse, link-target class); " +
@@ -168,7 +177,7 @@ func main() {
 	run("fail", failCount(), 24)
 	run("titles", titleCount(r.N(3, 4)), 400)
 	run("exh", exhCount(exhLen), 1000)
-	multiEnum := exhCount(multiEnumLen())
+	multiEnum := exhCount(multiEnumLen()) + exhCount(2)
 	run("multi", multiEnum+r.N(2500, 60000), 250)
 	run("rand", r.N(5000, 120000), 500)
 	os.RemoveAll(jail)
